@@ -295,11 +295,13 @@ theorem addrOf_long (A : Str) (h11 : 11 ≤ A.length) (hh : ∀ c ∈ A, IsHex c
 theorem Dongle.chars {serials : List Str} {s : Str} {i : Nat} (h : Dongle serials s i) : ∀ c ∈ s, NetlocChar c :=
   match h with
   | .index d _ => fun c hc => (digit_chars (natStr_digits d c hc)).1
+  | .digits _ _ hd _ => fun c hc => (digit_chars (hd c hc)).1
   | .serial _ _ hc _ _ => hc
 
 theorem Dongle.parses {serials : List Str} {s : Str} {i : Nat} (h : Dongle serials s i) : dongleOf serials s = .ok i :=
   match h with
   | .index d hd => dongleOf_index serials d hd
+  | .digits s hne hd hlen => dongleOf_digits serials s hne hd hlen
   | .serial _ _ _ hnot hidx => dongleOf_serial serials _ _ hnot hidx
 
 theorem parse_print_aux (serials : List Str) (dongle : Str) (devid : Nat) (hd : Dongle serials dongle devid)
@@ -489,5 +491,19 @@ theorem unknown_dongle_aux (serials : List Str) (N : Str) (hN : ∀ c ∈ N, Net
       simp only [Bool.and_eq_true, decide_eq_true_eq, Bool.not_eq_true', List.all_eq_true] at hb
       exact ⟨hb.1, by intro e; subst e; simp at hb, hb.2.2⟩
   simp [dongleOf, this, hidx]
+
+theorem short_address_aux (serials : List Str) (dongle : Str) (devid : Nat) (hd : Dongle serials dongle devid)
+    (ch : Nat) (hch : ch ≤ 125) (rate : Rate)
+    (A : Str) (hA1 : 1 ≤ A.length) (hA10 : A.length ≤ 10) (hhex : ∀ c ∈ A, IsHex c)
+    (limit : Option Nat) (hl : ∀ l, limit = some l → l < 10 ^ 4300) :
+    parseUri serials (printUri dongle ch rate A limit) =
+      parseUri serials (printUri dongle ch rate (List.replicate (10 - A.length) '0' ++ A) limit) := by
+  rw [parse_print_aux serials dongle devid hd ch hch rate A hA1 hA10 hhex limit hl,
+    parse_print_aux serials dongle devid hd ch hch rate (List.replicate (10 - A.length) '0' ++ A) (by simp; omega) (by simp; omega)
+      (by
+        intro c hc
+        rcases List.mem_append.mp hc with hc | hc
+        · rw [(List.mem_replicate.mp hc).2]; exact isHex_zero
+        · exact hhex c hc) limit hl, hexValue_zeros]
 
 end CfVerif.C20
